@@ -519,7 +519,7 @@ func Check(p Plan) *kit.Violation {
 		}
 		return true, ""
 	}
-	settleUntil := time.Now().Add(1500 * time.Millisecond)
+	settleUntil := time.Now().Add(5 * time.Second)
 	for {
 		leaks = clientLeaks(before)
 		ok, _ := allClosed()
